@@ -4,6 +4,8 @@ import (
 	"context"
 	"errors"
 	"fmt"
+	"os"
+	"path/filepath"
 	"regexp"
 	"strconv"
 	"strings"
@@ -20,6 +22,7 @@ import (
 	gatewayv1 "sigs.k8s.io/gateway-api/apis/v1"
 
 	"github.com/nginx/nginx-gateway-fabric/internal/framework/conditions"
+	"github.com/nginx/nginx-gateway-fabric/internal/framework/events"
 	frameworkStatus "github.com/nginx/nginx-gateway-fabric/internal/framework/status"
 	"github.com/nginx/nginx-gateway-fabric/internal/framework/status/statusfakes"
 	static "github.com/nginx/nginx-gateway-fabric/internal/mode/static"
@@ -42,42 +45,6 @@ const ctlrName = "gateway.nginx.org/verif"
 var versionRe = regexp.MustCompile(`return 200 (-?\d+);`)
 
 // ---- collaborators of the real handler ------------------------------------------------------
-
-// fileMgr stands for nginx/file.ManagerImpl: on success the generated files are "on disk" of the
-// simulated master, which then knows the version it will serve after the next successful HUP.
-type fileMgr struct {
-	m       *Master
-	ok      bool
-	partial bool // on failure the version file made it to disk anyway
-	called  bool
-	fileVer string
-}
-
-func (f *fileMgr) ReplaceFiles(files []file.File) error {
-	f.called = true
-	ver := -1
-	for _, fl := range files {
-		if strings.HasSuffix(fl.Path, "config-version.conf") {
-			if mm := versionRe.FindSubmatch(fl.Content); mm != nil {
-				ver, _ = strconv.Atoi(string(mm[1]))
-			}
-		}
-	}
-	f.fileVer = "-"
-	if ver >= 0 {
-		f.fileVer = strconv.Itoa(ver)
-	}
-	if f.ok || f.partial {
-		f.m.mu.Lock()
-		f.m.diskVersion = ver
-		f.m.diskGen++
-		f.m.mu.Unlock()
-	}
-	if !f.ok {
-		return errors.New("verif: write failed: no space left on device")
-	}
-	return nil
-}
 
 // recMgr is the runtime.Manager of the handler: every call goes to a REAL ManagerImpl (real
 // Reload, real VerifyClient against the simulator); it only records what happened and captures
@@ -103,11 +70,17 @@ func (r *recMgr) real() *ngxruntime.ManagerImpl {
 	if r.plus != nil {
 		pc = r.plus
 	}
-	return ngxruntime.NewManagerImpl(pc, r.mc, logr.Discard(), newProcHandler(r.m, longTimeout),
+	return ngxruntime.NewManagerImpl(pc, r.mc, logr.Discard(), newProcHandler(r.m, pidLongTimeout),
 		ngxruntime.VerifC12NewVerifyClient(r.m.sock, r.timeout))
 }
 
 func (r *recMgr) Reload(ctx context.Context, v int) error {
+	r.m.mu.Lock()
+	if r.m.disk != nil && r.m.disk.diskVersion(r.m.verPath) < 0 {
+		// the master will not load anything (no version file on disk): do not wait long for it
+		r.timeout = shortTimeout
+	}
+	r.m.mu.Unlock()
 	err := r.real().Reload(ctx, v)
 	r.reloadCalled, r.reloadVer, r.reloadErr = true, v, err
 	r.hup, r.chg, r.served, _, _ = r.m.state()
@@ -310,12 +283,15 @@ type segment struct {
 	plus  bool
 	h     *static.VerifC12Handler
 	rm    *recMgr
-	fm    *fileMgr
+	fm    *diskMgr
 	apiOK bool
+	lastOps int // file operations of the previous ReplaceFiles call (to aim faults at every index)
 	curCT state.ChangeType
 	curG  *graph.Graph
 	mu    sync.Mutex
 	calls [][]frameworkStatus.UpdateRequest
+	mark  int          // number of status calls made before Process(): those of the Service upsert filter
+	lastG *graph.Graph // GetLatestGraph(): the graph of the last batch that changed something
 
 	mb, ob, jb []string
 	kinds      map[string]bool
@@ -323,7 +299,7 @@ type segment struct {
 }
 
 func newSegment(m *Master, plus bool, kinds map[string]bool) *segment {
-	s := &segment{m: m, plus: plus, apiOK: true, kinds: kinds}
+	s := &segment{m: m, plus: plus, apiOK: true, kinds: kinds, lastOps: 30}
 	s.rm = &recMgr{m: m, mc: &metrics{}, timeout: longTimeout}
 	if plus {
 		s.rm.plus = &runtimefakes.FakeNginxPlusClient{}
@@ -337,9 +313,24 @@ func newSegment(m *Master, plus bool, kinds map[string]bool) *segment {
 			return &ngxclient.StreamUpstreams{}, nil
 		}
 	}
-	s.fm = &fileMgr{m: m}
+	// a new controller process starts with empty configuration folders (StartManager clears them)
+	fsRoot := filepath.Join(m.root, fmt.Sprintf("fs%d", m.pid))
+	_ = os.RemoveAll(fsRoot)
+	_ = os.MkdirAll(fsRoot, 0o755)
+	m.mu.Lock()
+	m.diskGen++
+	m.mu.Unlock()
+	ffs := newFaultFS(fsRoot, m)
+	m.disk = ffs
+	s.fm = &diskMgr{inner: file.NewManagerImpl(logr.Discard(), ffs), fs: ffs, fileVer: "-"}
 	proc := &statefakes.FakeChangeProcessor{}
-	proc.ProcessStub = func() (state.ChangeType, *graph.Graph) { return s.curCT, s.curG }
+	proc.ProcessStub = func() (state.ChangeType, *graph.Graph) {
+		s.mu.Lock()
+		s.mark = len(s.calls)
+		s.mu.Unlock()
+		return s.curCT, s.curG
+	}
+	proc.GetLatestGraphStub = func() *graph.Graph { return s.lastG }
 	upd := &statusfakes.FakeGroupUpdater{}
 	upd.UpdateGroupStub = func(_ context.Context, _ string, reqs ...frameworkStatus.UpdateRequest) {
 		s.mu.Lock()
@@ -366,15 +357,31 @@ func newSegment(m *Master, plus bool, kinds map[string]bool) *segment {
 type batchSpec struct {
 	ctc            string // n | e | c
 	g              *graph.Graph
-	writeOK        bool
-	partial        bool
+	fault          faultSpec // what the file layer does during ReplaceFiles
+	svc            bool      // the batch carries an upsert of NGF's own Service (its filter re-issues Gateway statuses)
 	apiOK          bool
 	sc             *Script
 	pp, pr, pv, ch string
 	timeout        time.Duration
 }
 
-func genBatch(r *rng.R, pid int) batchSpec {
+var faultClasses = []string{"n", "p", "i", "o"}
+
+func genFault(r *rng.R, lastOps int) faultSpec {
+	if !r.Chance(9, 20) {
+		return faultSpec{}
+	}
+	f := faultSpec{mode: "idx", cls: rng.Pick(r, faultClasses), k: r.Intn(lastOps + 2)}
+	if r.Chance(1, 3) {
+		f.mode = "afterver"
+	}
+	if r.Chance(1, 4) {
+		f.partial = r.Range(1, 40)
+	}
+	return f
+}
+
+func genBatch(r *rng.R, pid, lastOps int) batchSpec {
 	b := batchSpec{ctc: "c"}
 	switch p := r.Intn(100); {
 	case p < 28:
@@ -384,7 +391,8 @@ func genBatch(r *rng.R, pid int) batchSpec {
 	default:
 		b.g = genGraph(r)
 	}
-	b.writeOK, b.partial = r.Chance(17, 20), r.Bool()
+	b.fault = genFault(r, lastOps)
+	b.svc = r.Chance(1, 3)
 	b.apiOK = r.Chance(4, 5)
 	b.sc, b.pp, b.pr, b.pv, b.ch, b.timeout = genOracle(r, pid)
 	return b
@@ -401,7 +409,7 @@ func (s *segment) batch(b batchSpec) bool {
 	default:
 		s.curCT, s.curG = state.ClusterStateChange, b.g
 	}
-	fm.ok, fm.partial, fm.called, fm.fileVer = b.writeOK, b.partial, false, "-"
+	fm.reset(b.fault)
 	s.apiOK = b.apiOK
 	sc := b.sc
 	rm.timeout = b.timeout
@@ -411,8 +419,15 @@ func (s *segment) batch(b batchSpec) bool {
 	m.mu.Unlock()
 	m.install(sc)
 	s.mu.Lock()
-	s.calls = nil
+	s.calls, s.mark = nil, 0
 	s.mu.Unlock()
+	var evs events.EventBatch
+	if b.svc {
+		evs = append(evs, &events.UpsertEvent{Resource: &v1.Service{
+			ObjectMeta: metav1.ObjectMeta{Namespace: "nginx-gateway", Name: "nginx-gateway"},
+			Spec:       v1.ServiceSpec{ClusterIP: "10.1.2.3"},
+		}})
+	}
 
 	panicked := false
 	func() {
@@ -422,9 +437,9 @@ func (s *segment) batch(b batchSpec) bool {
 				s.note = fmt.Sprintf("panic in HandleEventBatch: %v", p)
 			}
 		}()
-		ctx, cancel := context.WithTimeout(context.Background(), 20*time.Second)
+		ctx, cancel := context.WithTimeout(context.Background(), outerTimeout)
 		defer cancel()
-		h.HandleEventBatch(ctx, nil)
+		h.HandleEventBatch(ctx, evs)
 	}()
 
 	// the oracle this batch presented, resolved to concrete answers
@@ -445,13 +460,36 @@ func (s *segment) batch(b batchSpec) bool {
 		}
 	}
 	m.mu.Unlock()
-	s.mb = append(s.mb, fmt.Sprintf("ct=%s/w=%s/api=%s/pp=%s/pb=40/pr=%s/prev=%s/kill=%s/ch=%s/vs=%s/b=1000",
-		b.ctc, b01(fm.ok), b01(s.apiOK), b.pp, b.pr, b.pv, b01(sc.Kill), b.ch, strings.Join(vs, ",")))
+	wModel, nf, vi := "ok", 0, 0
+	if fm.called {
+		nf, vi = len(fm.files), fm.verIdx
+		if fm.err != nil {
+			wModel = classOf(fm.err) + ":" + strconv.Itoa(fm.fs.writesOK)
+		}
+	}
+	chM := b.ch
+	m.mu.Lock()
+	if m.forcedSame {
+		chM = "1,1"
+	}
+	m.mu.Unlock()
+	s.mb = append(s.mb, fmt.Sprintf("ct=%s/nf=%d/vi=%d/w=%s/api=%s/pp=%s/pb=40/pr=%s/prev=%s/kill=%s/ch=%s/vs=%s/b=1000",
+		b.ctc, nf, vi, wModel, b01(s.apiOK), b.pp, b.pr, b.pv, b01(sc.Kill), chM, strings.Join(vs, ",")))
 
 	s.mu.Lock()
-	st := len(s.calls) > 0
-	gw, ls, rt := summarise(s.calls)
+	if s.mark > len(s.calls) {
+		s.mark = len(s.calls)
+	}
+	st := len(s.calls) > s.mark
+	gw, ls, rt := summarise(s.calls[s.mark:])
+	sv, svl, _ := summarise(s.calls[:s.mark]) // issued by the Service filter from the result remembered BEFORE this batch
+	if s.mark > 0 {
+		s.kinds["service-upsert-status"] = true
+	}
 	s.mu.Unlock()
+	if b.ctc != "n" {
+		s.lastG = b.g
+	}
 	v := "-"
 	if b.ctc != "n" {
 		v = strconv.Itoa(h.LatestConfigVersion())
@@ -464,12 +502,29 @@ func (s *segment) batch(b batchSpec) bool {
 		}
 		s.kinds["reload-"+rr] = true
 	}
-	w, api := "-", "-"
+	w, api, full, fw := "-", "-", "-", "-"
 	if fm.called {
-		w = b01(fm.ok)
-		if !fm.ok {
-			s.kinds["write-fails"] = true
+		w = b01(fm.err == nil)
+		s.lastOps = len(fm.fs.ops)
+		if fm.fs.fired != "" {
+			s.kinds["files-"+fm.fs.fired+"-"+fm.spec.cls] = true
 		}
+		if fm.err != nil {
+			s.kinds["write-fails"] = true
+			if fm.fs.verOnDisk {
+				s.kinds["write-fails-after-version-file"] = true
+			}
+		}
+		isFull, complete := fm.diskState()
+		full, fw = b01(isFull), strconv.Itoa(complete)
+	}
+	vd := "-"
+	if v := fm.fs.diskVersion(fm.verPath); v >= 0 {
+		vd = strconv.Itoa(v)
+	}
+	fe := "-"
+	if e := h.LatestReloadErr(); fm.called && e != nil && strings.Contains(e.Error(), "failed to replace NGINX configuration files") {
+		fe = classOf(e)
 	}
 	if rm.apiCalled {
 		api = b01(rm.apiErr == nil)
@@ -481,11 +536,11 @@ func (s *segment) batch(b batchSpec) bool {
 	if h.ReadyChClosed() {
 		closes = 1
 	}
-	s.ob = append(s.ob, fmt.Sprintf("v=%s gen=%s rv=%s rr=%s api=%s st=%s ver=%d ready=%s fbe=%s last=%s closes=%d",
-		v, b01(fm.called), rv, rr, b01(rm.apiCalled), b01(st), h.Version(), b01(h.ReadyzOK()),
+	s.ob = append(s.ob, fmt.Sprintf("v=%s gen=%s rv=%s rr=%s api=%s st=%s fe=%s fw=%s ver=%d ready=%s fbe=%s last=%s closes=%d",
+		v, b01(fm.called), rv, rr, b01(rm.apiCalled), b01(st), fe, fw, h.Version(), b01(h.ReadyzOK()),
 		b01(h.FirstBatchErr() != nil), b01(h.LatestReloadErr() != nil), closes))
-	s.jb = append(s.jb, fmt.Sprintf("ct=%s/w=%s/rr=%s/api=%s/v=%s/fv=%s/rv=%s/hup=%s/chg=%s/served=%s/run=%s/st=%s/gw=%s/ls=%s/rt=%s/ready=%s/closes=%d/panic=%s",
-		b.ctc, w, rrJ, api, v, fm.fileVer, rv, b01(rm.hup), b01(rm.chg), rm.served, b01(rm.runs), b01(st), gw, ls, rt,
+	s.jb = append(s.jb, fmt.Sprintf("ct=%s/w=%s/rr=%s/api=%s/v=%s/fv=%s/rv=%s/hup=%s/chg=%s/served=%s/run=%s/full=%s/vd=%s/st=%s/gw=%s/ls=%s/rt=%s/sv=%s/svl=%s/ready=%s/closes=%d/panic=%s",
+		b.ctc, w, rrJ, api, v, fm.fileVer, rv, b01(rm.hup), b01(rm.chg), rm.served, b01(rm.runs), full, vd, b01(st), gw, ls, rt, sv, svl,
 		b01(h.ReadyzOK()), closes, b01(panicked)))
 	return !panicked
 }
@@ -512,7 +567,7 @@ func handlerCase(r *rng.R, root string, pid, maxBatches int) (out line) {
 	plus := r.Chance(1, 3)
 	s := newSegment(m, plus, map[string]bool{})
 	for i, nb := 0, r.Range(1, maxBatches); i < nb; i++ {
-		if !s.batch(genBatch(r, pid)) {
+		if !s.batch(genBatch(r, pid, s.lastOps)) {
 			break
 		}
 	}
@@ -533,6 +588,62 @@ func handlerCase(r *rng.R, root string, pid, maxBatches int) (out line) {
 	return out
 }
 
+// cleanBatch: a change with a master that behaves and no file fault.
+func cleanBatch(r *rng.R, pid int, ctc string) batchSpec {
+	b := batchSpec{ctc: ctc, g: genGraph(r), apiOK: true, timeout: longTimeout,
+		pp: "p", pr: strconv.Itoa(pid), pv: "1", ch: "2"}
+	b.sc = &Script{Kill: true, Child: "changed", PidPolls: "p", PidRead: pidContent(r, pid), Stale: -7,
+		Vers: []VerAns{{Kind: "cur"}}}
+	return b
+}
+
+// applyDirectedCase: the FIRST configuration of a controller cannot be written completely — creating a
+// file fails with an error of class cls right after the version file was written —, the master would
+// accept whatever is on disk; then an idle batch (with a Service upsert), then a clean apply.
+func applyDirectedCase(r *rng.R, root string, pid int, cls string, plus bool) (out line) {
+	// the generator iterates a map: when the version file happens to come last nothing can fail after it; try again
+	for attempt := 0; attempt < 6; attempt++ {
+		var fired bool
+		out, fired = applyDirectedOnce(r, root, pid, cls, plus)
+		if fired || out.note != "" {
+			break
+		}
+	}
+	return out
+}
+
+func applyDirectedOnce(r *rng.R, root string, pid int, cls string, plus bool) (out line, fired bool) {
+	m, err := newMaster(root, pid)
+	if err != nil {
+		return line{note: "simulator: " + err.Error(), kind: "sim-error"}, false
+	}
+	defer m.close()
+	s := newSegment(m, plus, map[string]bool{})
+	b1 := cleanBatch(r, pid, "c")
+	b1.fault = faultSpec{mode: "afterver", cls: cls}
+	b2 := cleanBatch(r, pid, "n")
+	b2.svc = true
+	for i, b := range []batchSpec{b1, b2, cleanBatch(r, pid, "c")} {
+		if !s.batch(b) {
+			break
+		}
+		if i == 0 {
+			fired = s.fm.fs.fired != ""
+		}
+	}
+	out.kind = "apply-directed-" + cls + kindSuffix(s.kinds)
+	out.note = s.note
+	out.judge = "H plus=" + b01(plus) + " obs=" + strings.Join(s.jb, ";")
+	if out.note == "" {
+		out.model = fmt.Sprintf("H plus=%s bs=%s", b01(plus), strings.Join(s.mb, ";"))
+		out.obs = strings.Join(s.ob, ";")
+	}
+	if len(m.badPaths) > 0 {
+		out.note = "unexpected paths: " + strings.Join(m.badPaths, ",")
+	}
+	return out, fired
+}
+
 // restartCase: the NGF container restarts (a new handler, version counter back at 0) while the
 // NGINX master keeps running what the previous process configured. Judge only.
 func restartCase(r *rng.R, root string, pid int, canonical bool) (out line) {
@@ -543,7 +654,7 @@ func restartCase(r *rng.R, root string, pid int, canonical bool) (out line) {
 	defer m.close()
 	kinds := map[string]bool{}
 	clean := func(ctc string) batchSpec {
-		b := batchSpec{ctc: ctc, g: genGraph(r), writeOK: true, apiOK: true, timeout: longTimeout,
+		b := batchSpec{ctc: ctc, g: genGraph(r), apiOK: true, timeout: longTimeout,
 			pp: "p", pr: strconv.Itoa(pid), pv: "1", ch: "2"}
 		b.sc = &Script{Kill: true, Child: "changed", PidPolls: "p", PidRead: pidContent(r, pid), Stale: -7,
 			Vers: []VerAns{{Kind: "cur"}}}
@@ -560,7 +671,7 @@ func restartCase(r *rng.R, root string, pid int, canonical bool) (out line) {
 		a.batch(clean("c"))
 	}
 	for i, k := 0, r.Intn(3); i < k; i++ {
-		a.batch(batchSpec{ctc: "n", writeOK: true, apiOK: true, timeout: longTimeout, pp: "p", pr: "1", pv: "1", ch: "2",
+		a.batch(batchSpec{ctc: "n", apiOK: true, timeout: longTimeout, pp: "p", pr: "1", pv: "1", ch: "2",
 			sc: &Script{Kill: true, Child: "changed", PidPolls: "p", PidRead: "1"}})
 	}
 	segs = append(segs, strings.Join(a.jb, ";"))
